@@ -7,6 +7,8 @@ import (
 	"os"
 	"os/exec"
 	"path/filepath"
+	"regexp"
+	"strconv"
 	"strings"
 	"sync"
 	"time"
@@ -30,6 +32,7 @@ var solvers = []solverSpec{
 }
 
 type solveResult struct {
+	file   string
 	status string // unsat, sat, unknown
 	solver string
 	ms     int64
@@ -92,7 +95,7 @@ func runSolver(ctx context.Context, sp solverSpec, file string, timeoutS, seed i
 	case "sat":
 		st = "sat"
 	}
-	return solveResult{st, sp.name, ms, text}
+	return solveResult{file, st, sp.name, ms, text}
 }
 
 // race runs the solvers concurrently on the query and returns the first
@@ -108,6 +111,55 @@ func race(file string, timeoutS, seed int, which []solverSpec) solveResult {
 	var outs []string
 	for range which {
 		r := <-ch
+		if r.status != "unknown" {
+			return r
+		}
+		outs = append(outs, r.solver+": "+strings.TrimSpace(firstLines(r.out, 3)))
+		last = r
+	}
+	last.out = strings.Join(outs, "\n")
+	last.solver = "all"
+	return last
+}
+
+var sclDecl = regexp.MustCompile(`\(declare-fun scl(\d+) \(\(_ BitVec 64\)\) \(_ BitVec 64\)\)`)
+
+// variants of a query that uses the scaling abstraction (see scaleReg): [abstract + facts, exact].
+// Without the abstraction there is one variant.
+func queryVariants(sc string) []string {
+	if !sclDecl.MatchString(sc) {
+		return []string{sc}
+	}
+	abs := strings.ReplaceAll(sc, "\n;ARITH ", "\n")
+	exact := sclDecl.ReplaceAllStringFunc(sc, func(m string) string {
+		k := sclDecl.FindStringSubmatch(m)[1]
+		n, _ := strconv.Atoi(k)
+		return fmt.Sprintf("(define-fun scl%s ((x!q (_ BitVec 64))) (_ BitVec 64) (bvmul x!q #x%016x))", k, n)
+	})
+	return []string{abs, exact}
+}
+
+// raceFiles races the solvers on several variants of one query (the same obligation with and
+// without the optional arithmetic facts); any definitive answer to any variant decides it.
+func raceFiles(files []string, timeoutS, seed int, which []solverSpec) solveResult {
+	if len(files) == 1 {
+		return race(files[0], timeoutS, seed, which)
+	}
+	ctx, cancel := context.WithCancel(context.Background())
+	defer cancel()
+	ch := make(chan solveResult, len(which)*len(files))
+	for _, f := range files {
+		for _, sp := range which {
+			go func(f string, sp solverSpec) { ch <- runSolver(ctx, sp, f, timeoutS, seed) }(f, sp)
+		}
+	}
+	var last solveResult
+	var outs []string
+	for i := 0; i < len(which)*len(files); i++ {
+		r := <-ch
+		if r.status == "sat" && r.file != files[len(files)-1] {
+			r.status = "unknown" // a model of the abstracted variant may be spurious; the exact variant decides
+		}
 		if r.status != "unknown" {
 			return r
 		}
@@ -183,6 +235,15 @@ func (d *Discharger) discharge(i int, o *Obligation) {
 	}
 	file := filepath.Join(d.dir, fmt.Sprintf("q%05d.smt2", i))
 	os.WriteFile(file, []byte(o.script(gv)), 0o644)
+	files := []string{file}
+	if vs := queryVariants(o.script(gv)); len(vs) == 2 && !o.Cover {
+		// [abstracted scaling + facts, exact]; the exact one is the file kept for inspection
+		fa := filepath.Join(d.dir, fmt.Sprintf("q%05d.a.smt2", i))
+		os.WriteFile(fa, []byte(vs[0]), 0o644)
+		os.WriteFile(file, []byte(vs[1]), 0o644)
+		files = []string{fa, file}
+		defer os.Remove(fa)
+	}
 	// quantifier-free first: the hypotheses that are quantified are dropped (their relevant
 	// instances were added explicitly, see instantiateFor); proving the goal from fewer
 	// hypotheses is sound, and the ground query is decided by bit-blasting
@@ -203,8 +264,20 @@ func (d *Discharger) discharge(i int, o *Obligation) {
 			q := sb.String()
 			if !strings.Contains(q, "(forall ") && !strings.Contains(q, "(exists ") {
 				f2 := file + ".qf.smt2"
-				os.WriteFile(f2, []byte(strings.Replace(q, "(set-logic ALL)", "(set-logic QF_AUFBV)", 1)), 0o644)
-				r0 := race(f2, 25, d.seed, solvers[:1])
+				q = strings.Replace(q, "(set-logic ALL)", "(set-logic QF_AUFBV)", 1)
+				os.WriteFile(f2, []byte(q), 0o644)
+				qfs := []string{f2}
+				if vs := queryVariants(q); len(vs) == 2 {
+					f3 := file + ".qfa.smt2"
+					os.WriteFile(f3, []byte(vs[0]), 0o644)
+					os.WriteFile(f2, []byte(vs[1]), 0o644)
+					qfs = []string{f3, f2}
+					defer os.Remove(f3)
+				}
+				r0 := raceFiles(qfs, 25, d.seed, solvers[:1])
+				if r0.status == "sat" {
+					r0.status = "unknown" // the ground part alone is weaker: a model of it refutes nothing
+				}
 				os.Remove(f2)
 				if r0.status == "unsat" {
 					o.Solver, o.Ms, o.Output, o.Status = r0.solver+"(ground)", r0.ms, r0.out, "discharged"
@@ -215,13 +288,13 @@ func (d *Discharger) discharge(i int, o *Obligation) {
 		}
 	}
 	// fast path: the newest z3 alone with a short budget
-	r := race(file, 3, d.seed, solvers[:1])
+	r := raceFiles(files, 3, d.seed, solvers[:1])
 	if r.status == "unknown" {
 		t := d.timeoutS
 		if o.Cover && t > 6 {
 			t = 6 // covers are vacuity guards: an undecided cover is reported, not waited for
 		}
-		r = race(file, t, d.seed, solvers)
+		r = raceFiles(files, t, d.seed, solvers)
 	}
 	if o.Cover && r.status == "unknown" {
 		// undecided with quantified hypotheses: decide the ground part alone. If even that is
